@@ -1,7 +1,9 @@
 package run
 
 import (
+	"runtime/debug"
 	"encoding/json"
+	"math/rand"
 	"fmt"
 	"os"
 	"os/exec"
@@ -24,6 +26,7 @@ type Options struct {
 	NoReindex  bool
 	NoVacuity  bool
 	NoGroup    bool
+	Sweep      bool // SAT-sweep the miter (merge solver-proved equivalent sub-terms bottom-up) before the final query
 	Setup      func(x *vexec.Exec, w *World)
 	Solver     string
 }
@@ -84,6 +87,7 @@ type InstResult struct {
 	NVars       int
 	TermsBy     map[string]int
 	OpHist      map[string]int
+	SweepNote   string
 	Queries     int
 }
 
@@ -152,6 +156,9 @@ func (w *World) RunInstance(inst Instance, s *sym.Pool) (res *InstResult) {
 					return
 				}
 				res.Err = fmt.Errorf("executor crashed: %v", r)
+				if os.Getenv("VP_DEBUG") != "" {
+					fmt.Println(string(debug.Stack()))
+				}
 			}
 		}()
 		if err := x.Run(fn); err != nil {
@@ -264,6 +271,26 @@ func (w *World) discharge(inst Instance, x *vexec.Exec, pl *sym.Pool, res *InstR
 		}
 		decideOne := func(i int) {
 			a := H.Asserts[i]
+			if inst.Opt.Sweep {
+				t0 := time.Now()
+				var given []*sym.Term
+				for _, p := range pre {
+					if sym.Size(p, 60) < 60 {
+						given = append(given, p)
+					}
+				}
+				sp := sym.NewPool([]string{"z3-new", "z3"}, 8000)
+				out, st := c.Sweep([]*sym.Term{a.Bad}, given, sp, sweepSample, 20000)
+				sp.Close()
+				res.SweepNote = fmt.Sprintf("%s sweep: %d nodes, %d candidate pairs, %d proved equal and merged, %d refuted, %d unknown, %.1fs", res.SweepNote, st.Nodes, st.Candidates, st.Proved, st.Refuted, st.Unknown, time.Since(t0).Seconds())
+				if out[0].IsConst() && out[0].C == 0 {
+					ob := &results[i]
+					ob.Ms, ob.Verdict = float64(time.Since(t0).Milliseconds()), "unsat"
+					ob.Detail = fmt.Sprintf("closed by SAT sweeping (%d sub-term equivalences proved by the solver)", st.Proved)
+					return
+				}
+				a.Bad = out[0]
+			}
 			r, m, msg, ms := solve(append(append([]*sym.Term(nil), pre...), a.Bad))
 			ob := &results[i]
 			ob.Ms, ob.Verdict, ob.Detail = ms, r.String(), msg
@@ -274,7 +301,7 @@ func (w *World) discharge(inst Instance, x *vexec.Exec, pl *sym.Pool, res *InstR
 				}
 			}
 		}
-		if len(idx) == 1 || inst.Opt.NoGroup {
+		if len(idx) == 1 || inst.Opt.NoGroup || inst.Opt.Sweep {
 			for _, i := range idx {
 				decideOne(i)
 			}
@@ -489,4 +516,20 @@ func (w *World) ReplayTape(pkg, fn, tapePath string) (string, error) {
 	cmd.Env = append(GoEnv(), "VP_TAPE="+abs)
 	out, err := cmd.CombinedOutput()
 	return string(out), err
+}
+
+// sweepSample draws random values for simulation vector k; board cells get valid piece codes at varying densities.
+func sweepSample(v *sym.Term, r *rand.Rand, k int) uint64 {
+	if strings.HasPrefix(v.Name, "cell[") {
+		dens := []int{10, 25, 40, 60, 80}[k%5] // percent of occupied squares
+		if r.Intn(100) >= dens {
+			return 0
+		}
+		p := uint64(1 + r.Intn(5))
+		if r.Intn(2) == 0 {
+			p |= 8
+		}
+		return p
+	}
+	return r.Uint64()
 }
